@@ -468,6 +468,9 @@ func runPlan(c *pbt.Case, p Plan) {
 			c.Failf("C08/lease-not-destroyed", "node %s lost lease %s (not by handoff) and never closed it", node, id)
 		}
 	}
+	if a := cl.LeaseAnomalies(); len(a) > 0 {
+		c.Failf("C08/primary-after-giving-lease-back", "%s (%d such moments)", a[0], len(a))
+	}
 	if primaries > 0 && losses > 0 && (handoffs > 0 || len(p.Nodes) > 2) {
 		c.NonTrivial()
 	}
@@ -477,4 +480,4 @@ var electionProp = pbt.Prop[Plan]{ID: "C08", Name: "election", Gen: genPlan, Run
 
 func TestProp_election(t *testing.T) { electionProp.Check(t) }
 
-func TestReplay(t *testing.T) { pbt.Replay(t, electionProp, staticProp, consulModelProp, consulStoreProp) }
+func TestReplay(t *testing.T) { pbt.Replay(t, electionProp, staticProp, consulModelProp, consulStoreProp, consulTTLProp) }
